@@ -94,6 +94,10 @@ def run(prog: Program, col: Collector, tier: str, refs: Optional[Refs] = None, c
     col.rule("R07.9", "keyword spelling of constructor arguments is normalised by declared position, never by call order", floor=2)
     _keyword_order(prog, col, refs, cat)
 
+    # ---------------------------------------------------------------- R07.10
+    col.rule("R07.10", "a metaclass __call__ hands identity-keyed arguments on as the very objects it received", floor=1)
+    _identity_arguments_unchanged(prog, col, refs, cat)
+
     # ---------------------------------------------------------------- R07.6
     col.rule("R07.6", "identity hooks: __hash__/__copy__/__reduce__ and pickling go through the interning constructors", floor=8)
     _identity_hooks(prog, col, refs, cat)
@@ -527,6 +531,57 @@ def _strong_memos(prog: Program, col: Collector, refs: Refs, cat: Catalogue):
                           "stays alive, so the weak op / domain intern tables can never drop them", f.loc())
         else:
             col.ok(construct, "memo keyed by classes / domains / plain data, not by term instances", f.loc())
+    # (b) a container created once at definition time (a mutable default argument) that becomes a memo of terms: it lives as long
+    #     as the process and holds everything ever memoized in it
+    # memoizing interpretations by role: `interpret` stores into a container attribute of self (self.cache[key] = value)
+    memo_cls = set()
+    for c in prog.subclasses("funsor.interpretations.Interpretation"):
+        im = c.methods.get("interpret")
+        if im is not None and im.positional and any(
+                isinstance(x, ast.Subscript) and isinstance(x.ctx, ast.Store) and isinstance(x.value, ast.Attribute) and isinstance(x.value.value, ast.Name)
+                and x.value.value.id == im.positional[0] for x in ast.walk(im.node)):
+            memo_cls.add(c.fq)
+    if not memo_cls:
+        raise AnalysisError("no memoizing interpretation found by role (anchor: Memoize.interpret stores into self.cache)")
+    for f in prog.funcs.values():
+        if isinstance(f.node, ast.Lambda) or not f.module.name.startswith("funsor."):
+            continue
+        a = f.node.args
+        pos = a.posonlyargs + a.args
+        pairs = list(zip(pos[len(pos) - len(a.defaults):], a.defaults)) + [(x, d) for x, d in zip(a.kwonlyargs, a.kw_defaults) if d is not None]
+        for arg, d in pairs:
+            mutable = isinstance(d, (ast.Dict, ast.List, ast.Set)) or (isinstance(d, ast.Call) and isinstance(d.func, ast.Name)
+                                                                         and d.func.id in ("dict", "list", "set", "OrderedDict", "defaultdict", "WeakValueDictionary") and not d.args)
+            if not mutable:
+                continue
+            # does it become the table of a memoizing interpretation?
+            feeds = [c for c in walk_no_nested(f.node) if isinstance(c, ast.Call) and refs.resolve(c.func) in memo_cls
+                     and any(isinstance(x, ast.Name) and x.id == arg.arg for x in c.args + [k.value for k in c.keywords])]
+            stored = [st for st in walk_no_nested(f.node) if isinstance(st, ast.Assign) and isinstance(st.value, ast.Name) and st.value.id == arg.arg
+                      and any(isinstance(t, ast.Attribute) for t in st.targets)] if f.cls is not None and f.cls.fq in memo_cls else []
+            if feeds or stored:
+                col.violation(f"{f.fq}::{arg.arg}={norm(d)}", f"the default of `{arg.arg}` is a container created once, at definition time, and it becomes the memo table of an "
+                              "interpretation: every `with` block that does not pass its own table shares it for the life of the process, so the terms memoized in it "
+                              "(and the arrays behind them) are never reclaimed, and a later block is answered from an earlier block's entries", f.loc())
+    # (c) a per-instance memo on a term: `self.<attr>[key] = <term built from self>` outside construction makes the interned operand own a
+    #     strong reference to a term whose cons key owns the operand - a cycle rooted in the operand, which the weak table cannot break
+    for t in cat.term_classes.values():
+        for mname, m in t.cls.methods.items():
+            if mname in ("__init__", "__new__") or not m.positional:
+                continue
+            selfn = m.positional[0]
+            for st in walk_no_nested(m.node):
+                if not isinstance(st, ast.Assign):
+                    continue
+                for tg in st.targets:
+                    tgts = [tg] + ([e for e in tg.elts] if isinstance(tg, ast.Tuple) else [])
+                    for x in tgts:
+                        if isinstance(x, ast.Subscript) and isinstance(x.value, ast.Attribute) and isinstance(x.value.value, ast.Name) and x.value.value.id == selfn:
+                            built = [c for c in ast.walk(st.value) if isinstance(c, ast.Call) and refs.resolve(c.func) in cat.term_classes]
+                            if built:
+                                col.violation(f"{m.fq}::{norm(x)} = {norm(st.value)[:40]}", f"a term built from `{selfn}` is memoized in a container attribute of `{selfn}` itself: the operand "
+                                              "now owns the derived term, whose interning key owns the operand, so neither is ever reclaimed while the other's table entry lives "
+                                              "(terms must be kept alive by their holders only)", m.loc(st))
 
 
 # ---------------------------------------------------------------------- R07.6
@@ -718,3 +773,55 @@ def _stmt_of(mod, node):
     while cur is not None and not isinstance(cur, ast.stmt):
         cur = mod.parent.get(cur)
     return cur
+
+
+# ---------------------------------------------------------------------- R07.10
+ALLOCATING_CALLS = {"asarray", "array", "ascontiguousarray", "asanyarray", "copy", "astype", "__array__", "clone", "contiguous", "reshape", "ravel", "flatten",
+                    "atleast_1d", "require", "asfortranarray", "tensor", "as_tensor", "numpy"}
+
+
+def _identity_arguments_unchanged(prog: Program, col: Collector, refs: Refs, cat: Catalogue):
+    """Arrays take part in the cons key by identity.  A metaclass __call__ that replaces such an argument by the result of a call that
+    may allocate (np.asarray(x, order=...), x.copy(), x.astype(...)) before delegating gives every request a fresh identity: the same
+    array no longer yields the same term.  (Converting numpy *scalars* - values without identity of their own - is tolerated and noted.)"""
+    fmeta = "funsor.terms.FunsorMeta"
+    metas = [c for c in prog.classes.values() if c.fq == fmeta or prog.is_subclass(c.fq, fmeta)]
+    n = 0
+    for c in metas:
+        m = c.methods.get("__call__")
+        if m is None:
+            continue
+        params = set(m.positional[1:])
+        for st in walk_no_nested(m.node):
+            if not (isinstance(st, ast.Assign) and len(st.targets) == 1 and isinstance(st.targets[0], ast.Name) and st.targets[0].id in params):
+                continue
+            v = st.value
+            if not isinstance(v, ast.Call):
+                continue
+            fn = v.func.attr if isinstance(v.func, ast.Attribute) else (v.func.id if isinstance(v.func, ast.Name) else "")
+            p = st.targets[0].id
+            uses_p = any(isinstance(x, ast.Name) and x.id == p for x in ast.walk(v))
+            if fn not in ALLOCATING_CALLS or not uses_p:
+                continue
+            r = refs.resolve(v.func) if isinstance(v.func, (ast.Name, ast.Attribute)) else None
+            if not ((r or "").split(".")[0] in ("numpy", "torch", "jax") or isinstance(v.func, ast.Attribute)):
+                continue
+            n += 1
+            guards = [a for a in m.module.ancestors(st) if isinstance(a, ast.If) and m.module.enclosing_function(a) is m.node]
+            scalar_only = False
+            for g in guards:
+                t = g.test
+                if isinstance(t, ast.Call) and isinstance(t.func, ast.Name) and t.func.id == "isinstance" and len(t.args) == 2 and norm(t.args[0]) == p:
+                    classes = [refs.resolve(e) for e in (t.args[1].elts if isinstance(t.args[1], ast.Tuple) else [t.args[1]])]
+                    if classes and all(cn in ("numpy.generic", "numpy.number", "numbers.Number", "builtins.float", "builtins.int") for cn in classes):
+                        scalar_only = True
+            construct = f"{m.fq}::{norm(st)[:60]}"
+            if scalar_only:
+                col.ok(construct, "only numpy scalars (values without an identity of their own) are converted; arrays are handed on as received. (A Tensor built from a numpy "
+                       "scalar is a new term on every call - documented in the source, not decided here.)", m.loc(st))
+            else:
+                col.violation(construct, f"`{p}` is replaced by `{norm(v)[:50]}` before the term is looked up: the call may return a new array, and arrays are keyed by identity, so "
+                              "two requests with the same array (a transposed / strided view is enough) give two different terms and the stored data is not the array passed in", m.loc(st))
+    col.cur.analysed["metaclass_argument_rewrites"] = n
+    if n == 0:
+        raise AnalysisError("no metaclass __call__ that rewrites an array argument found (anchor: TensorMeta.__call__)")
